@@ -261,6 +261,22 @@ def execute(env, sc):
             continue
         if not m.complete:
             r.label("incomplete-delivery")
+            # An incomplete delivery is visible to the client, but what did arrive must still be right: the head of a
+            # single-part 206 states a slice inside the representation, declares that slice's length, and the bytes
+            # received are a prefix of that slice.
+            if m.status == 206 and not m.get("content-type", b"").lower().startswith(b"multipart/byteranges"):
+                cm = CR_RE.match(m.get("content-range", b"").strip())
+                if cm:
+                    a, b, total = int(cm.group(1)), int(cm.group(2)), cm.group(3)
+                    whereI = "request %d Range %r on a %d-byte object (incomplete delivery)" % (idx, hdrs[0][1], L)
+                    if total != str(L).encode():
+                        r.fail("206-single:content-range-wrong-total", "%s: Content-Range %r" % (whereI, m.get("content-range")))
+                    elif b < a or b >= L:
+                        r.fail("206-single:content-range-outside-representation", "%s: Content-Range %r" % (whereI, m.get("content-range")))
+                    elif not B[a:b + 1].startswith(m.body):
+                        r.fail("206-single:bytes-differ-from-stated-slice", "%s: Content-Range %r, %d body bytes are not a prefix of the slice" % (whereI, m.get("content-range"), len(m.body)))
+                    elif m.declared_length is not None and m.declared_length != b - a + 1:
+                        r.fail("206-single:content-length-differs-from-stated-slice", "%s: Content-Range %r but Content-Length %d" % (whereI, m.get("content-range"), m.declared_length))
             continue
         r.sub_evaluations += 1
         sat = [x for x in (resolve(s, L) for s in specs) if x]
